@@ -8,7 +8,7 @@ HOOK_COMMITS_FILE = os.path.join(ROOT, "tools", "hook_commits.txt")
 # id -> (category, technique, level text, level note, design ref)
 CHECKS = {
   "C03": ("exploration",
-          "property-based testing (proptest): reference-encoder differential + round-trip over generated frame sequences and segmentations; exhaustive single-cut enumeration on boundary lengths",
+          "property-based testing (proptest): reference-encoder differential + round-trip over generated frame sequences and segmentations; exhaustive single-cut enumeration on boundary lengths; thorough tier adds a libFuzzer stage (target decoders: 400 000 executions, reference-decoder oracle inside the target)",
           "Generated search, not proof: thousands of frame sequences x segmentations per run, every encoder compared byte-for-byte with an independent reference encoder and every decoder with the original sequence; the finite sub-space of single cuts over boundary-length two-frame streams is enumerated completely.",
           "Trusts the harness's RFC-derived reference encoder/decoder; decoders run with MAXMSGSIZE=-1; COMMAND frames only through the encoders rzmq uses for commands.",
           "DESIGN.md §2 C03"),
@@ -28,7 +28,7 @@ CHECKS = {
           "The attacker performs no real CURVE/Noise cryptography and never has the configured password; a PLAIN client has no secret to verify (WELCOME+READY is legitimate). Panics are C07's subject and only counted here.",
           "DESIGN.md §2 C06"),
   "C07": ("fault_enumeration",
-          "mutation-based fuzzing driven by proptest: byte- and frame-aware mutators (length extremes, MORE runs, malformed READY / CURVE tokens, truncation, splices) over honest transcripts and over live engine pairs via a man in the middle; stand-alone parser fuzz with a reference-decoder differential; MAXMSGSIZE boundary; raw slow / malformed peers against real sockets",
+          "mutation-based fuzzing driven by proptest: byte- and frame-aware mutators (length extremes, MORE runs, malformed READY / CURVE tokens, truncation, splices) over honest transcripts and over live engine pairs via a man in the middle; stand-alone parser fuzz with a reference-decoder differential; MAXMSGSIZE boundary; raw slow / malformed peers against real sockets; thorough tier adds a libFuzzer stage (target engine_stream: 30 000 executions with a ZMTP dictionary, oracles inside the target)",
           "Fault injection over every handshake type and role: tens of thousands of mutated streams per run with the oracles 'no panic', 'read buffer within MAXMSGSIZE+9 plus one chunk', 'an error is terminal', 'limit accepted, limit+1 refused'; stack level adds the handshake-interval, slot-release and isolation oracles with real sockets.",
           "CURVE/NOISE deep states are reached only through the live man-in-the-middle (no real attacker cryptography); buffer bound observed on the engine's accumulator; stack timings allow 2 s slack (session minimum lifespan is 1 s); MAXMSGSIZE below the handshake's own frame sizes is skipped (rzmq applies the limit to command frames, so no handshake completes).",
           "DESIGN.md §2 C07"),
